@@ -4,6 +4,7 @@ Env/Knapsack/Lemmas.lean).  Sections are named after the property they belong to
 -/
 import JumanjiModel.Env.Knapsack.Lemmas
 import JumanjiModel.Env.Knapsack.Bounds
+import JumanjiModel.Env.Knapsack.Episode
 import JumanjiModel.Prim.FloatLemmas
 open Jm Knapsack
 
@@ -67,6 +68,39 @@ theorem knapsack_remaining_nonneg_roundF32 (dense : Bool) (s : State) (a : Nat) 
   Knapsack.remaining_nonneg Jx.roundF32 (fun _ _ h => Jx.roundF32_mono h) Jx.roundF32_zero dense s a hr hl
 
 example : Feasible 1 ⟨[1/2, 1/4], [1, 1], [false, true], 3/4⟩ := by decide +kernel
+
+/-- `RandomGenerator` (any valid draw of weights and values, any non-negative budget): the reset state is
+feasible -/
+theorem knapsack_reset_feasible (n : Nat) (b : Rat) (w v : List Rat) (hb : 0 ≤ b) (h : validDraw n w v) :
+    Feasible b (generate n b w v) ∧ WithinBudget b (generate n b w v) :=
+  ⟨Knapsack.generate_feasible n b w v hb h,
+   Knapsack.feasible_withinBudget b _ (Knapsack.generate_feasible n b w v hb h)⟩
+
+/-- the same for ANY state passing the generator certificate `instanceOK` (the predicate the C10 sweep
+evaluates on the implementation's reset states) -/
+theorem knapsack_instance_feasible (n : Nat) (b : Rat) (s : State) (hb : 0 ≤ b)
+    (h : instanceOK n b s = true) : Feasible b s := (Knapsack.instanceOK_feasible n b s hb h).1
+
+/-- every state of a mask-respecting play of any length (exact arithmetic; `statesAlong`, `LegalPlay` in
+Env/Knapsack/Episode.lean): the total weight of the packed items, recomputed from `packed_items` and
+`weights` only, is within the budget — and the bookkeeping `remaining_budget` agrees with it -/
+theorem knapsack_feasible_along (b : Rat) (dense : Bool) (s : State) (as : List Nat) (hf : Feasible b s)
+    (hp : LegalPlay id dense s as) :
+    ∀ s' ∈ statesAlong id dense s as, WithinBudget b s' ∧ Feasible b s' := fun s' hs' =>
+  ⟨Knapsack.feasible_withinBudget b s' (Knapsack.feasible_along b dense s as hf hp s' hs'),
+   Knapsack.feasible_along b dense s as hf hp s' hs'⟩
+
+/-- a complete mask-respecting episode ends in a maximal feasible packing: within the budget, and every
+unpacked item weighs more than `budget − packed weight` (both recomputed from `packed_items`/`weights`) -/
+theorem knapsack_complete_is_solution (b : Rat) (dense : Bool) (s : State) (as : List Nat)
+    (hf : Feasible b s) (hep : LegalEpisode id dense s as) :
+    WithinBudget b (endState id dense s as) ∧ Maximal b (endState id dense s as) ∧
+    ∀ i, ¬ legal (endState id dense s as) i :=
+  (Knapsack.complete_is_solution b dense s as hf hep).2
+
+example : validDraw 3 [1/2, 1/4, 1/2] [1, 1/2, 1/3] := by decide +kernel
+example : LegalPlay id true (generate 3 1 [1/2, 1/4, 1/2] [1, 1/2, 1/3]) [1] := by decide +kernel
+example : LegalEpisode id true (generate 3 1 [1/2, 1/4, 1/2] [1, 1/2, 1/3]) [1, 0] := by decide +kernel
 end Props.C06
 
 namespace Props.C08
@@ -82,7 +116,122 @@ theorem knapsack_sparse_reward (rnd : Rat → Rat) (s : State) (a : Nat) :
     (step rnd false s a).2.reward =
       [if (step rnd false s a).2.stepType = .last ∧ isValid s a = true
        then packedValue (step rnd false s a).1 else 0] := Knapsack.sparse_reward rnd s a
+
+/-! whole episodes (`returnOf`, `endState`, `LegalEpisode`, `InvalidEnded` in Env/Knapsack/Episode.lean): the
+actions are played until the first LAST timestep; `rnd` (the rounding of the budget subtraction) is arbitrary.
+`instanceOK n b s` is the generator certificate: `n` items, nothing packed, the whole budget left. -/
+
+/-- ANY sequence of in-range actions from ANY well-shaped state (legal or not, finished or not): the dense
+rewards add up to the gain in packed value recomputed from `packed_items` and `values` -/
+theorem knapsack_dense_return_from (rnd : Rat → Rat) (s : State) (as : List Nat) (hs : WellShaped s)
+    (hr : ∀ a ∈ as, a < s.weights.length) :
+    returnOf rnd true s as = packedValue (endState rnd true s as) - packedValue s :=
+  Knapsack.dense_return_any rnd s as hs hr
+
+/-- complete episode of legal actions from a fresh instance, dense reward: return = total value of the items
+packed in the final state -/
+theorem knapsack_dense_return (rnd : Rat → Rat) (n : Nat) (b : Rat) (s : State) (as : List Nat)
+    (h0 : instanceOK n b s = true) (hep : LegalEpisode rnd true s as) :
+    returnOf rnd true s as = packedValue (endState rnd true s as) :=
+  Knapsack.dense_return rnd n b s as h0 hep
+
+/-- the same for the sparse reward (from any well-shaped state: the sparse reward pays the whole bag) -/
+theorem knapsack_sparse_return (rnd : Rat → Rat) (s : State) (as : List Nat) (hs : WellShaped s)
+    (hep : LegalEpisode rnd false s as) :
+    returnOf rnd false s as = packedValue (endState rnd false s as) :=
+  Knapsack.sparse_return rnd s as hs hep
+
+/-- same instance, same complete legal episode (legality and the trajectory do not depend on the reward
+function): both reward functions return the packed value of the final state, hence the same number -/
+theorem knapsack_dense_eq_sparse (rnd : Rat → Rat) (n : Nat) (b : Rat) (s : State) (as : List Nat)
+    (dense : Bool) (h0 : instanceOK n b s = true) (hep : LegalEpisode rnd dense s as) :
+    returnOf rnd true s as = returnOf rnd false s as ∧
+    endState rnd true s as = endState rnd false s as ∧
+    returnOf rnd true s as = packedValue (endState rnd dense s as) := by
+  have h := Knapsack.dense_eq_sparse rnd n b s as dense h0 hep
+  exact ⟨h.1.trans h.2.symm, Knapsack.endState_dense_irrel rnd true false s as, h.1⟩
+
+theorem knapsack_episode_return (rnd : Rat → Rat) (n : Nat) (b : Rat) (s : State) (as : List Nat)
+    (dense : Bool) (h0 : instanceOK n b s = true) (hep : LegalEpisode rnd dense s as) :
+    returnOf rnd dense s as = packedValue (endState rnd dense s as) :=
+  Knapsack.episode_return rnd n b s as dense h0 hep
+
+/-- in particular from every instance `RandomGenerator` can produce -/
+theorem knapsack_episode_return_generated (rnd : Rat → Rat) (n : Nat) (b : Rat) (w v : List Rat)
+    (as : List Nat) (dense : Bool) (hd : validDraw n w v)
+    (hep : LegalEpisode rnd dense (generate n b w v) as) :
+    returnOf rnd dense (generate n b w v) as = packedValue (endState rnd dense (generate n b w v) as) :=
+  Knapsack.episode_return rnd n b _ as dense (Knapsack.generate_instanceOK n b w v hd) hep
+
+/-- episode ended by an invalid action (legal actions, then an item that is packed already or does not fit):
+the invalid step itself pays 0 under both reward functions (`knapsack_illegal_terminates`, C05); the dense
+return keeps the values of the items packed before, the sparse return is 0 — as documented
+("the reward is 0 if the action is invalid"), so the two returns differ on such episodes -/
+theorem knapsack_dense_return_invalid (rnd : Rat → Rat) (n : Nat) (b : Rat) (s : State) (as : List Nat)
+    (h0 : instanceOK n b s = true) (hep : InvalidEnded rnd true s as) :
+    returnOf rnd true s as = packedValue (endState rnd true s as) :=
+  Knapsack.dense_return_invalid rnd n b s as h0 hep
+
+theorem knapsack_sparse_return_invalid (rnd : Rat → Rat) (s : State) (as : List Nat) (hs : WellShaped s)
+    (hep : InvalidEnded rnd false s as) : returnOf rnd false s as = 0 :=
+  Knapsack.sparse_return_invalid rnd s as hs hep
+
+/-- the trajectory class on which dense and sparse differ: pack item 0, then choose item 0 again -/
+theorem knapsack_dense_ne_sparse_invalid_witness :
+    InvalidEnded id true (generate 3 1 [1/2, 1/4, 1/2] [1, 1/2, 1/3]) [0, 0] ∧
+    returnOf id true (generate 3 1 [1/2, 1/4, 1/2] [1, 1/2, 1/3]) [0, 0] = 1 ∧
+    returnOf id false (generate 3 1 [1/2, 1/4, 1/2] [1, 1/2, 1/3]) [0, 0] = 0 := by decide +kernel
+
+example : instanceOK 3 1 (generate 3 1 [1/2, 1/4, 1/2] [1, 1/2, 1/3]) = true := by decide +kernel
+example : LegalEpisode id false (generate 3 1 [1/2, 1/4, 1/2] [1, 1/2, 1/3]) [2, 1] := by decide +kernel
+example : returnOf id false (generate 3 1 [1/2, 1/4, 1/2] [1, 1/2, 1/3]) [2, 1] = 5/6 := by decide +kernel
 end Props.C08
+
+namespace Props.C09
+/-- L1 = L2: on every well-shaped state and every in-range action (valid or not) the transliterated `step`
+returns exactly what the published rules (`stepL2`, Env/Knapsack/Model.lean) prescribe — successor state,
+reward, step type, discount and observation; any rounding `rnd`, either reward function -/
+theorem knapsack_step_eq_spec (rnd : Rat → Rat) (dense : Bool) (s : State) (a : Nat) (hs : WellShaped s)
+    (ha : a < s.weights.length) : step rnd dense s a = stepL2 rnd dense s a :=
+  Knapsack.step_eq_spec rnd dense s a hs ha
+
+/-- the episode ends exactly when the action is invalid or no item can be added any more -/
+theorem knapsack_last_iff (rnd : Rat → Rat) (dense : Bool) (s : State) (a : Nat) (hs : WellShaped s)
+    (ha : a < s.weights.length) :
+    (step rnd dense s a).2.stepType = .last ↔
+      (¬ legal s a ∨ ∀ i, ¬ legal (step rnd dense s a).1 i) := Knapsack.last_iff rnd dense s a hs ha
+
+/-- a legal step, field by field: problem data untouched, the packed set grows by exactly the chosen item,
+the remaining budget decreases by its weight -/
+theorem knapsack_step_legal_spec (rnd : Rat → Rat) (dense : Bool) (s : State) (a : Nat) (hs : WellShaped s)
+    (hl : legal s a) :
+    let s' := (step rnd dense s a).1
+    s'.weights = s.weights ∧ s'.values = s.values ∧ s'.packed.length = s.packed.length ∧
+    (∀ i, s'.packed.getD i true = if i = a then true else s.packed.getD i true) ∧
+    s'.remaining = rnd (s.remaining - s.weights.getD a 0) := Knapsack.step_legal_spec rnd dense s a hs hl
+
+example : WellShaped ⟨[1/2, 1/4], [1, 1], [false, true], 1/2⟩ := by decide +kernel
+end Props.C09
+
+namespace Props.C10
+/-- `RandomGenerator.__call__` transliterated (`generate`, the uniform samples as draw parameters): for every
+number of items, every budget and every valid draw the instance passes the certificate -/
+theorem knapsack_generate_certificate (n : Nat) (b : Rat) (w v : List Rat) (h : validDraw n w v) :
+    instanceOK n b (generate n b w v) = true := Knapsack.generate_instanceOK n b w v h
+
+/-- certificate ⇒ advertised invariants: `n` weights and `n` values, all in [0, 1]; nothing packed; the
+remaining budget is the total budget -/
+theorem knapsack_certificate_spec (n : Nat) (b : Rat) (s : State) (h : instanceOK n b s = true) :
+    s.weights.length = n ∧ s.values.length = n ∧ s.packed = List.replicate n false ∧
+    s.remaining = b ∧ UnitItems s := Knapsack.instanceOK_spec n b s h
+
+/-- certificate ⇒ the instance is a feasible starting point with empty bag (packed weight and value 0) -/
+theorem knapsack_certificate_feasible (n : Nat) (b : Rat) (s : State) (hb : 0 ≤ b)
+    (h : instanceOK n b s = true) : Feasible b s ∧ packedValue s = 0 ∧ packedWeight s = 0 :=
+  Knapsack.instanceOK_feasible n b s hb h
+
+example : validDraw 3 [1/2, 1/4, 1/2] [1, 1/2, 1/3] := by decide +kernel
+end Props.C10
 
 namespace Props.C12
 /-- the observation is the documented function of the successor state -/
